@@ -634,6 +634,55 @@ func c12Judge(c *vlib.Check, call c12call, spec respSpec, run func() ([]kmip.Ope
 // (algorithm X in {RSA, EC, ECDSA}) and hands out a public key of kind Y in {RSA, EC P-256, EC P-521, a symmetric key, a
 // public key object without material} - consistent or not - and then answers the Sign request with every response of the
 // product. Signer() and Sign() return a value or an error; they never panic.
+// c12AttrShapes: how one attribute of a Get Attributes answer can arrive (all well-formed TTLV).
+var c12AttrShapes = []string{"absent", "without-value", "with-a-text-value", "with-an-empty-structure-value", "twice", "with-index-only"}
+
+// c12ReshapeAttribute rewrites attribute #idx of the (single) Get Attributes response payload in an encoded response message.
+func c12ReshapeAttribute(raw []byte, idx int, shape string) []byte {
+	var msg ttlv.Value
+	if err := ttlv.UnmarshalTTLV(raw, &msg); err != nil {
+		panic(err)
+	}
+	var walk func(v ttlv.Value) ttlv.Value
+	walk = func(v ttlv.Value) ttlv.Value {
+		st, ok := v.Value.(ttlv.Struct)
+		if !ok {
+			return v
+		}
+		out := ttlv.Struct{}
+		n := -1
+		for _, k := range st {
+			if v.Tag != kmip.TagResponsePayload || k.Tag != kmip.TagAttribute {
+				out = append(out, walk(k))
+				continue
+			}
+			if n++; n != idx {
+				out = append(out, k)
+				continue
+			}
+			parts := k.Value.(ttlv.Struct)
+			name := parts[0]
+			switch shape {
+			case "absent":
+			case "without-value":
+				out = append(out, ttlv.Value{Tag: k.Tag, Value: ttlv.Struct{name}})
+			case "with-index-only":
+				out = append(out, ttlv.Value{Tag: k.Tag, Value: ttlv.Struct{name, {Tag: kmip.TagAttributeIndex, Value: int32(0)}}})
+			case "with-a-text-value":
+				out = append(out, ttlv.Value{Tag: k.Tag, Value: ttlv.Struct{name, {Tag: kmip.TagAttributeValue, Value: "text"}}})
+			case "with-an-empty-structure-value":
+				out = append(out, ttlv.Value{Tag: k.Tag, Value: ttlv.Struct{name, {Tag: kmip.TagAttributeValue, Value: ttlv.Struct{}}}})
+			case "twice":
+				out = append(out, k, k)
+			default:
+				panic("c12ReshapeAttribute: " + shape)
+			}
+		}
+		return ttlv.Value{Tag: v.Tag, Value: out}
+	}
+	return ttlv.MarshalTTLV(walk(msg))
+}
+
 func c12Signer(c *vlib.Check, specs []respSpec) {
 	rk := rsaKey(1024, 0xC0, 0xFF, 65537)
 	ek := ecKey(elliptic.P256(), big.NewInt(0x7F))
@@ -663,11 +712,24 @@ func c12Signer(c *vlib.Check, specs []respSpec) {
 		{"public-key-without-material", kmip.ObjectTypePublicKey, &kmip.PublicKey{KeyBlock: kmip.KeyBlock{KeyFormatType: kmip.KeyFormatTypeX_509}}},
 	}
 	algs := []kmip.CryptographicAlgorithm{kmip.CryptographicAlgorithmRSA, kmip.CryptographicAlgorithmEC, kmip.CryptographicAlgorithmECDSA}
-	type cfg struct{ ai, ki int }
+	// the shape of the attributes in the Get Attributes answers of the set-up flow, as they arrive from the wire:
+	// mut 0 = as the library's server sends them; else attribute (mut-1)/len(c12AttrShapes) of the answer about `who` is reshaped
+	type cfg struct {
+		ai, ki, mut int
+		who         string
+	}
 	var cfgs []cfg
 	for ai := range algs {
 		for ki := range keys {
-			cfgs = append(cfgs, cfg{ai, ki})
+			cfgs = append(cfgs, cfg{ai, ki, 0, ""})
+			if ki > 1 {
+				continue
+			}
+			for _, who := range []string{"priv", "pub", "both"} {
+				for m := 1; m <= 4*len(c12AttrShapes); m++ {
+					cfgs = append(cfgs, cfg{ai, ki, m, who})
+				}
+			}
 		}
 	}
 	var n int64
@@ -684,12 +746,20 @@ func c12Signer(c *vlib.Check, specs []respSpec) {
 				if p.UniqueIdentifier == "pub" {
 					ot, link, lt, um = kmip.ObjectTypePublicKey, "priv", kmip.LinkTypePrivateKeyLink, kmip.CryptographicUsageVerify
 				}
-				return ok(kmip.OperationGetAttributes, &payloads.GetAttributesResponsePayload{UniqueIdentifier: p.UniqueIdentifier, Attribute: []kmip.Attribute{
+				resp, err := ok(kmip.OperationGetAttributes, &payloads.GetAttributesResponsePayload{UniqueIdentifier: p.UniqueIdentifier, Attribute: []kmip.Attribute{
 					{AttributeName: kmip.AttributeNameObjectType, AttributeValue: ot},
 					{AttributeName: kmip.AttributeNameCryptographicAlgorithm, AttributeValue: alg},
 					{AttributeName: kmip.AttributeNameLink, AttributeValue: kmip.Link{LinkType: lt, LinkedObjectIdentifier: link}},
 					{AttributeName: kmip.AttributeNameCryptographicUsageMask, AttributeValue: um},
 				}})
+				if mut := cfgs[i].mut; mut > 0 && (cfgs[i].who == "both" || cfgs[i].who == p.UniqueIdentifier) {
+					raw := c12ReshapeAttribute(ttlv.MarshalTTLV(resp), (mut-1)/len(c12AttrShapes), c12AttrShapes[(mut-1)%len(c12AttrShapes)])
+					resp = &kmip.ResponseMessage{}
+					if err := ttlv.UnmarshalTTLV(raw, resp); err != nil {
+						return nil, fmt.Errorf("undecodable response: %w", err)
+					}
+				}
+				return resp, err
 			case *payloads.GetRequestPayload:
 				return ok(kmip.OperationGet, &payloads.GetResponsePayload{ObjectType: key.ot, UniqueIdentifier: p.UniqueIdentifier, Object: key.obj})
 			case *payloads.SignRequestPayload:
@@ -710,6 +780,9 @@ func c12Signer(c *vlib.Check, specs []respSpec) {
 		}
 		defer cl.Close()
 		label := fmt.Sprintf("Signer: attributes say %s, the public key object is %s", ttlv.EnumStr(alg), key.name)
+		if m := cfgs[i].mut; m > 0 {
+			label += fmt.Sprintf("; attribute #%d of the Get Attributes answer about %s arrives %s", (m-1)/len(c12AttrShapes), cfgs[i].who, c12AttrShapes[(m-1)%len(c12AttrShapes)])
+		}
 		rep := map[string]any{"kind": "signer", "case": label}
 		var signer crypto.Signer
 		var serr error
@@ -718,7 +791,7 @@ func c12Signer(c *vlib.Check, specs []respSpec) {
 			return
 		}
 		c.Eval([]byte(label), true)
-		if serr != nil || signer == nil {
+		if serr != nil || signer == nil || cfgs[i].mut > 0 {
 			return
 		}
 		digest := make([]byte, 32)
